@@ -537,6 +537,8 @@ class FnTr:
         except Unsupported:
             return None
         if v.path is not None and v.typ.startswith('Opt '):
+            if node is test and v.typ[4:] not in self.u.hooks.get('always_truthy', ()) and 'always_truthy' in self.u.hooks:
+                return None        # bare `if x:` on an Optional whose values can be falsy (0.0, '') is not a presence test
             return v, positive
         return None
 
@@ -1087,6 +1089,8 @@ class FnTr:
         num = ('Dt', 'Td', 'Int')
         if isinstance(op, (ast.Is, ast.IsNot)) and b.typ == 'None' and a.typ.startswith('Opt '):
             return Val(f'({a.text}).{"isNone" if isinstance(op, ast.Is) else "isSome"}', 'Bool')      # `x is None` as a value
+        if isinstance(op, (ast.Is, ast.IsNot)) and b.typ == 'None' and a.typ not in ('None', 'Kw') and '?' not in a.typ:
+            return Val('false' if isinstance(op, ast.Is) else 'true', 'Bool')       # a value already known to be present
         if isinstance(op, (ast.In, ast.NotIn)) and b.typ == 'Props' and a.typ == 'Str':
             r = Val(f'((GV.Coll.assocGet {b.text} {a.text}).isSome)', 'Bool')
             return r if isinstance(op, ast.In) else Val(f'(!{r.text})', 'Bool')
